@@ -18,14 +18,22 @@
 (* Only "forged" has an effect: whatever else the client sends, a request  *)
 (* that was forwarded carries the marker.  One action per handler          *)
 (* invocation.                                                             *)
+(* A node may also hold an upstream that is still registered but has told  *)
+(* the server it accepts no more connections (gone: yamux go-away, e.g. a   *)
+(* listener that is closing or being rebalanced): Select picks it, the      *)
+(* dial reports ErrGone, the proxy removes it (dereg) and answers 502 -     *)
+(* the request is not sent anywhere else, forwarded or not.                 *)
 (***************************************************************************)
 EXTENDS Integers, FiniteSets, Sequences
 
-CONSTANTS Node
+CONSTANTS Node,
+          MaxGone  \* bound on the number of nodes whose only upstream has gone away (model only)
 
 ExtKinds == {"none", "forged", "false", "hide"}
 
-VARIABLES has,     \* nodes with a local upstream for E
+VARIABLES has,     \* nodes with a local upstream for E that accepts connections
+          gone,    \* nodes whose only registered upstream for E has gone away
+          dereg,   \* nodes that removed their gone upstream from the registry
           bel,     \* bel[n] \subseteq Node \ {n}
           up,      \* nodes that accept connections
           at,      \* node handling the request now ("" when finished)
@@ -36,10 +44,12 @@ VARIABLES has,     \* nodes with a local upstream for E
           servedBy,
           entry, ext
 
-vars == <<has, bel, up, at, fwd, hops, runs, outcome, servedBy, entry, ext>>
+vars == <<has, gone, dereg, bel, up, at, fwd, hops, runs, outcome, servedBy, entry, ext>>
 
 Init ==
   /\ has \in SUBSET Node
+  /\ gone \in {g \in SUBSET (Node \ has) : Cardinality(g) <= MaxGone}
+  /\ dereg = {}
   /\ bel \in [Node -> SUBSET Node]
   /\ \A n \in Node : n \notin bel[n]
   /\ up \in SUBSET Node
@@ -54,14 +64,16 @@ Handle ==
   /\ at # ""
   /\ runs' = [runs EXCEPT ![at] = @ + 1]
   /\ IF at \in has
-     THEN /\ outcome' = "served" /\ servedBy' = at /\ at' = "" /\ UNCHANGED <<fwd, hops>>
+     THEN /\ outcome' = "served" /\ servedBy' = at /\ at' = "" /\ UNCHANGED <<fwd, hops, dereg>>
+     ELSE IF at \in gone \ dereg       \* Select returns the gone upstream; its dial reports ErrGone
+     THEN /\ outcome' = "502" /\ at' = "" /\ dereg' = dereg \cup {at} /\ UNCHANGED <<servedBy, fwd, hops>>
      ELSE IF fwd \/ bel[at] = {}
-     THEN /\ outcome' = "502" /\ at' = "" /\ UNCHANGED <<servedBy, fwd, hops>>
+     THEN /\ outcome' = "502" /\ at' = "" /\ UNCHANGED <<servedBy, fwd, hops, dereg>>
      ELSE \E m \in bel[at] :          \* LookupEndpoint returns any believed node
             IF m \in up
-            THEN at' = m /\ fwd' = TRUE /\ hops' = hops + 1 /\ UNCHANGED <<outcome, servedBy>>
-            ELSE outcome' = "502" /\ at' = "" /\ UNCHANGED <<servedBy, fwd, hops>>   \* dial fails
-  /\ UNCHANGED <<has, bel, up, entry, ext>>
+            THEN at' = m /\ fwd' = TRUE /\ hops' = hops + 1 /\ UNCHANGED <<outcome, servedBy, dereg>>
+            ELSE outcome' = "502" /\ at' = "" /\ UNCHANGED <<servedBy, fwd, hops, dereg>>   \* dial fails
+  /\ UNCHANGED <<has, gone, bel, up, entry, ext>>
 
 Next == Handle
 Spec == Init /\ [][Next]_vars /\ WF_vars(Next)
@@ -74,6 +86,8 @@ HandlerRunsBounded ==
 LocalPreferred == (outcome # "" /\ entry \in has) => (outcome = "served" /\ servedBy = entry /\ hops = 0)
 ForwardedNeverForwards == ext = "forged" => hops = 0
 ServedOnlyByRealUpstream == outcome = "served" => servedBy \in has
+\* a gone upstream is only ever removed by a handler that ran on its node
+DeregOnlyWhereHandled == dereg \subseteq {n \in gone : runs[n] > 0}
 OutcomeWhenDone == at = "" => outcome \in {"served", "502"}
 Terminates == <>(at = "")
 
@@ -81,6 +95,6 @@ Terminates == <>(at = "")
 \* that are up, every node serves E iff some up node has an upstream for it
 Settled == \A n \in Node : bel[n] = (has \cap up) \ {n}
 SettledServes ==
-  (Settled /\ ext # "forged" /\ at = "" /\ has \subseteq up) =>
+  (Settled /\ gone = {} /\ ext # "forged" /\ at = "" /\ has \subseteq up) =>
      (outcome = "served" <=> has # {})
 =============================================================================
